@@ -114,6 +114,8 @@ def herm_basic(rng, count, types=("d",), classes=("sym", "symsh", "herm"), nmax=
         if cls == "symsh":
             # a shift that is not an eigenvalue: half-integers avoid the integer spectra; random matrices: irrational-ish
             kw["sigma"] = rng.choice(["0.37", "-1.63", "2.5", "0.05", "7.31"])
+            if rng.random() < 0.4:
+                kw["presig"] = rng.choice(["0.21", "-0.77", "1.3"])   # the operator object was used with another shift before
             if f["fam"] in ("lap",):
                 kw["sigma"] = rng.choice(["-0.3", "4.7", "1.123"])
         out.append(desc(**kw))
@@ -171,9 +173,14 @@ def gen_basic(rng, count, types=("d",), classes=("gen", "genrs", "gencs"), nmax=
         kw.update(f)
         if cls == "genrs":
             kw["sigma"] = rng.choice(["0.37", "-1.63", "2.45", "0.05", "5.31"])
+            if rng.random() < 0.4:
+                kw["presig"] = rng.choice(["0.21", "-0.77", "1.3"])
         if cls == "gencs":
             kw["sigma"] = rng.choice(["0.37", "-1.13", "2.45"])
             kw["sigmai"] = rng.choice(["0.8", "1.9", "0.3"])
+            if rng.random() < 0.4:
+                kw["presig"] = rng.choice(["0.21", "-0.77", "1.3"])
+                kw["presigi"] = rng.choice(["0.6", "1.4"])
         out.append(desc(**kw))
     return out
 
@@ -246,7 +253,10 @@ def history_descs(rng, count, types=("d",), classes=("sym", "symsh", "herm", "ge
         a0 = "%d:%d:%s:%d" % (rng.choice(rules), rng.choice([80, 80, 3, 1]), tol_for(rng, ty), rng.choice(sorts))
         a1 = "%d:%d:%s:%d" % (rng.choice(rules), rng.choice([0, 1, 2, 80]), tol_for(rng, ty), rng.choice(sorts))
         # args2: a rule the family does not support => compute() throws invalid_argument
-        a2 = "%d:%d:%s:%d" % (3 if gen else 1, 5, tol_for(rng, ty), rng.choice(sorts))
+        if rng.random() < 0.5:
+            a2 = "%d:%d:%s:%d" % (3 if gen else 1, 5, tol_for(rng, ty), rng.choice(sorts))
+        else:
+            a2 = "%d:%d:%s:%d" % (rng.choice(rules), rng.choice([5, 80]), tol_for(rng, ty), 3 if gen else 1)
         obs = rng.choice(["I,C0", "V1,C0", "I,C1"])
         hist = "N,P," + obs + ",P" + ("," + ",".join(prefix) if prefix else "") + "," + obs + ",P,N," + obs + ",P"
         kw = dict(cls=cls, ty=ty, n=n, nev=nev, ncv=ncv, seed=rng.randint(1, 10 ** 6), hist=hist, args0=a0, args1=a1, args2=a2,
@@ -328,6 +338,8 @@ def geig_basic(rng, count, types=("d",), classes=("gchol", "greginv", "gsi", "gb
         else:
             kw["store"] = rng.choice(["dd", "ss", "sd", "ds"])
             kw["sigma"] = rng.choice(["0.37", "-1.63", "2.45", "0.11", "-0.53"])
+            if rng.random() < 0.4:
+                kw["presig"] = rng.choice(["0.21", "-0.77", "1.3"])   # the SymShiftInvert object was factorized with another shift before
         sel = rng.choice(HERM_SEL)
         if cls in ("gsi", "gbuck", "gcay"):
             sel = rng.choice([0, 3, 7, 8])   # SmallestMagn of nu (far from the shift) converges very slowly: documented as allowed to fail
@@ -389,6 +401,22 @@ def selection_descs(rng, count, types=("d",), classes=("sym", "symsh", "herm", "
                 rule = rng.choice([0, 3, 7, 8])
         tol = "-4" if ty == "f" else "-10"
         kw["args0"] = "%d:%d:%s:%d" % (rule, 500, tol, sort)
+        # "after any sequence of init() and compute() calls": a third of the runs ask the same object for a second (third) answer
+        # with ANOTHER rule of the same domain, with and without a new init() in between
+        if i % 3 == 2:
+            if cls == "gencs":
+                rule1 = 0
+            elif cls == "genrs":
+                rule1 = rng.choice([r for r in (0, 1, 2) if r != rule] or [0])
+            elif gen:
+                rule1 = rng.choice([r for r in GEN_RULES if r != rule])
+            elif cls in ("symsh", "gsi", "gbuck", "gcay"):
+                rule1 = rng.choice([r for r in (0, 3, 7, 8) if r != rule])
+            else:
+                rule1 = rng.choice([r for r in HERM_SEL if r != rule])
+            kw["args1"] = "%d:%d:%s:%d" % (rule1, 500, tol, rng.choice(GEN_RULES if gen else HERM_SORT))
+            kw["hist"] = rng.choice(["N,I,C0,C1", "N,I,C1,I,C0", "N,I,C0,C1,C0", "N,V1,C1,C0"])
+            kw["sv1"] = "rnd"
         out.append(desc(**kw))
     return out
 
@@ -410,6 +438,8 @@ def geig_kw(rng, cls, ty, nmax=20):
     else:
         kw["store"] = rng.choice(["dd", "ss", "sd", "ds"])
         kw["sigma"] = rng.choice(["0.37", "-1.63", "2.45"])
+        if rng.random() < 0.4:
+            kw["presig"] = rng.choice(["0.21", "-0.77", "1.3"])   # the SymShiftInvert object was factorized with another shift before
     return kw
 
 
@@ -486,16 +516,23 @@ def breakdown_descs(rng, count, types=("d",), gen=None, meas=2):
             # rank-1 general matrices and scaled (2^+-20) breakdown inputs violate C02/C07 on the unchanged tree: recorded findings on
             # fixed descriptors (check.py FIXED_BREAKDOWN), not part of the random profile
             f, sv = rng.choice([(dict(fam="lowrank", rank=rng.randint(2, 3)), "rnd"), (dict(fam="blockdiag", blk=rng.randint(2, 4)), "blk"),
-                                (dict(fam="tri"), "e1"), (dict(fam="fewdist", nd=rng.randint(2, 3)), "rnd")])
+                                (dict(fam="tri"), "e1"), (dict(fam="fewdist", nd=rng.randint(2, 3)), "rnd"),
+                                # ones is an eigenvector to working accuracy, not exactly: tiny NONZERO residual of the step-1 factorization
+                                (dict(fam="rowsum", rs=rng.choice([10, 10, -12, 25])), "ones")])
             nev, ncv = rng.randint(1, 2), rng.randint(7, 9)
             a0 = "%d:%d:%s:%d" % (rng.choice([0, 1]), 20, tol, rng.choice(GEN_RULES))
             cls = "gen"
         else:
             f, sv = rng.choice([(dict(fam="presc", spec="lowrank", rank=rng.randint(1, 3)), "rnd"), (dict(fam="blockdiag", blk=rng.randint(2, 4)), "blk"),
-                                (dict(fam="diag", spec="lin"), "e1"), (dict(fam="presc", spec="rep", mult=rng.choice([5, 6, 7])), "rnd")])
+                                (dict(fam="diag", spec="lin"), "e1"), (dict(fam="presc", spec="rep", mult=rng.choice([5, 6, 7])), "rnd"),
+                                (dict(fam="rowsum", rs=rng.choice([10, 10, -12, 25])), "ones")])
             nev, ncv = rng.randint(1, 2), rng.randint(7, 9)
             a0 = "%d:%d:%s:%d" % (rng.choice([0, 3]), 20, tol, rng.choice(HERM_SORT))
             cls = rng.choice(["sym", "sym", "herm"]) if f["fam"] in ("presc", "blockdiag") else "sym"
+            if f["fam"] == "rowsum":
+                # every rule, so that a spurious zero Ritz value (if the tiny residual were normalised) would be wanted by some run
+                a0 = "%d:%d:%s:%d" % (rng.choice(HERM_SEL), 20, tol, rng.choice(HERM_SORT))
+                nev = rng.randint(1, 3)
         kw = dict(cls=cls, ty=ty, n=n, nev=nev, ncv=min(n, ncv), seed=rng.randint(1, 10 ** 6), hist="N,V1,C0", sv1=sv, args0=a0, meas=meas, ref=0,
                   lgs=0)
         kw.update(f)
